@@ -101,6 +101,23 @@ def run_multiple(a):
     br.ACKRC = int(a["ackrc"]) if a.get("ackrc") else None
     msgs = parse_msgs(a["msgs"])
     form = a.get("form", "tuple")
+    # the Python value the application hands over for each payload (the line carries the bytes it must become)
+    kinds = a.get("kinds", "").split(",") if a.get("kinds") else []
+
+    def pyval(i, p):
+        k = kinds[i] if i < len(kinds) else "b"
+        if k == "i":
+            return int(p.decode())
+        if k == "f":
+            return float(p.decode())
+        if k == "s":
+            return p.decode()
+        if k == "n":
+            return None
+        if k == "a":
+            return bytearray(p)
+        return p
+    msgs = [(t, pyval(i, p), q, r) for i, (t, p, q, r) in enumerate(msgs)]
     pymsgs = []
     for i, (t, p, q, r) in enumerate(msgs):
         if form == "dict" or (form == "mixed" and i % 2):
@@ -199,13 +216,25 @@ class HelpersStream:
             if rng.random() < 0.55:
                 n = rng.randint(1, 6)
                 msgs = []
+                kinds = []
                 for _ in range(n):
                     t = rng.choice([b"t/a", b"t/\xc3\xa9", b"x"])
-                    p = bytes(rng.randrange(256) for _ in range(rng.choice([0, 1, 5, 200])))
+                    k = rng.choice(["b", "b", "b", "i", "f", "s", "n", "a"])
+                    if k == "i":
+                        p = str(rng.choice([0, 0, 7, -3])).encode()
+                    elif k == "f":
+                        p = str(rng.choice([0.0, 0.0, 2.5])).encode()
+                    elif k == "s":
+                        p = rng.choice(["", "0", "h\u00e9llo"]).encode()
+                    elif k == "n":
+                        p = b""
+                    else:
+                        p = bytes(rng.randrange(256) for _ in range(rng.choice([0, 1, 5, 200])))
+                    kinds.append(k)
                     msgs.append(f"{hx(t)}:{hx(p)}:{rng.choice([0, 1, 2])}:{rng.randrange(2)}")
                 single = int(n == 1 and rng.random() < 0.5)
                 case.append(f"multiple proto={proto} transport={tr} form={rng.choice(['tuple', 'dict', 'mixed'])} single={single} "
-                            f"auth={int(rng.random() < 0.3)} will={int(rng.random() < 0.3)}" + (" ackrc=16" if proto == 5 and rng.random() < 0.4 else "") + f" msgs={','.join(msgs)}")
+                            f"auth={int(rng.random() < 0.3)} will={int(rng.random() < 0.3)}" + (" ackrc=16" if proto == 5 and rng.random() < 0.4 else "") + f" kinds={','.join(kinds)} msgs={','.join(msgs)}")
             else:
                 count = rng.choice([1, 1, 2, 3])
                 n = rng.randint(count, count + 4)
